@@ -95,11 +95,13 @@ def const_in(fdecl, name):
     return None
 
 
-def check_traits(db, rep):
+def check_traits(db, rep, only=None):
     """A.trait.dep: elementwise <=> slot k depends only on operand slots k; arity 1 => suv2 bound to suv1"""
     unit = db.unit('instantiate')
     n = 0
     for op, (pcls, ename, pred) in proxies.OPS.items():
+        if only is not None and op not in only:
+            continue
         n += 1
         fas = db.one('instantiate', 'squids::SU_vector::assignProxy<squids::detail::AssignWrapper, %s>' % pcls)
         elementwise = const_in(fas, 'elementwise')
@@ -142,7 +144,7 @@ def check_traits(db, rep):
         elif arity == 2:
             # the alias test must then look at suv2 as well: decided by the alias cases of rule B.value
             rep.ok('A.trait.dep')
-    rep.floor('A.trait.dep', n, 9)
+    rep.floor('A.trait.dep', n, 9 if only is None else len(only))
 
 
 def check_wrappers(db, rep):
